@@ -6,7 +6,8 @@ package c20
 // (install / update / uninstall with their flags, plus commands that install hooks implicitly) starting from an
 // enumerated set of pre-existing hook files (content classes; file types and link states; permission states) x
 // hooks-directory types x filter.lfs.* values x scopes x where such a value lives relative to the scope's file (include
-// files, includeIf, the XDG global file, other scopes: c20_where_verif_test.go) x core.hooksPath; states are real
+// files, includeIf, the XDG global file, other scopes: c20_where_verif_test.go) x core.hooksPath x the directory of the
+// work tree the command is invoked from (c20_cwd_verif_test.go); states are real
 // directory trees, deduplicated by a canonical key (hook bytes+modes, config values per scope); the ownership
 // oracle is evaluated on every transition, and on every install transition two composite probes are run
 // (install;install and install;install;uninstall).
@@ -240,6 +241,12 @@ const realHooksDir = "realhooks"
 
 const scriptsDir = "userscripts"
 
+// hook-named entries outside every hooks directory (see digest)
+const (
+	strayDir   = "<elsewhere>"
+	strayClass = "hook-file-outside-hooks-directory"
+)
+
 var scopeFiles = [][2]string{
 	{"system", "sys.gitconfig"},
 	{"global", "home/.gitconfig"},
@@ -353,10 +360,11 @@ type envT struct {
 	cfgCache sync.Map
 	pool     chan *gitx.World
 	thorough bool
-	xcheck   string // scope whose modelled view is compared with the real git after every transition ("" = none)
-	unpriv   bool   // the scenario being run executes git-lfs as unprivUID on worlds owned by unprivUID
-	dropOK   bool   // the harness runs as root and can drop privileges for a child process
-	dropWhy  string // why not
+	xcheck   string   // scope whose modelled view is compared with the real git after every transition ("" = none)
+	altSubs  []string // scenario cwd: the invoking directories; the uninstall of the roundtrip probe is run from each of them
+	unpriv   bool     // the scenario being run executes git-lfs as unprivUID on worlds owned by unprivUID
+	dropOK   bool     // the harness runs as root and can drop privileges for a child process
+	dropWhy  string   // why not
 }
 
 // unprivUID: uid/gid ("nobody") git-lfs runs as in scenario 'perms', where permission bits must bite
@@ -477,7 +485,13 @@ func (e *envT) digest(s snap) *state {
 	for rel, en := range s {
 		dir, rest := splitHookPath(rel)
 		if dir == "" {
-			continue
+			if !isHookName(filepath.Base(rel)) {
+				continue
+			}
+			// an entry named like one of the four hooks that lies in none of the hooks directories (e.g. in a directory
+			// called like the relative core.hooksPath below a sub-directory of the work tree): part of the state; one
+			// that pre-exists is the user's file, one that appears is a stray (S1, R1)
+			dir, rest = strayDir, rel
 		}
 		he := hookEnt{Kind: en.Kind, Mode: en.Mode, Link: en.Link}
 		if en.Kind == 'f' {
@@ -489,6 +503,14 @@ func (e *envT) digest(s snap) *state {
 			}
 		}
 		switch {
+		case dir == strayDir:
+			// user content unless it is a regular file with LFS-generated (or blank) content
+			he.Class, he.Protected = strayClass, true
+			if en.Kind == 'f' {
+				if c, _ := classifyContent(filepath.Base(rel), en.Data); c != "user" {
+					he.Class, he.Protected = strayClass+"-"+c, false
+				}
+			}
 		case dir == scriptsDir:
 			hook := strings.TrimSuffix(filepath.Base(rest), ".sh")
 			switch en.Kind {
@@ -631,7 +653,8 @@ func (st *state) describe() map[string]interface{} {
 
 type opDef struct {
 	Name       string
-	Cwd        string // repo | wt2 | outside
+	Cwd        string // repo | wt2 | outside: the top of the work tree (or the directory outside) the command belongs to
+	Sub        string // scenario cwd: sub-directory of Cwd the command is INVOKED from ("" = the top of the work tree)
 	Args       []string
 	Kind       string // install | uninstall | update | implicit | manual
 	Force      bool
@@ -704,7 +727,16 @@ func matchingUninstall(o opDef) opDef {
 	if o.SkipRepo {
 		fl = "r"
 	}
-	return mkOp("uninstall", o.Scope, o.Cwd, fl)
+	return subOp(mkOp("uninstall", o.Scope, o.Cwd, fl), o.Sub)
+}
+
+// subOp: the same operation invoked from the sub-directory sub of its work tree
+func subOp(o opDef, sub string) opDef {
+	o.Sub = sub
+	if sub != "" {
+		o.Name += "/" + sub
+	}
+	return o
 }
 
 var (
@@ -720,7 +752,10 @@ var (
 	opUninstHooks = opDef{Name: "uninstall hooks @repo", Cwd: "repo", Args: []string{"uninstall", "hooks"}, Kind: "hooks-uninstall"}
 )
 
-// activeDir: the directory git-lfs is documented to use for hooks (core.hooksPath, else <gitdir>/hooks).
+// activeDir: the directory git-lfs is documented to use for hooks (core.hooksPath, else <gitdir>/hooks) = GIT's hooks
+// directory: a relative core.hooksPath is taken relative to the TOP of the work tree wherever in the work tree the
+// command is invoked (o.Sub plays no role; verified against `git rev-parse --git-path hooks` run at the top and in
+// every invoking directory for every initial state of scenario cwd, and against where git 2.39 runs hooks from).
 func activeDir(pre *state, o opDef) string {
 	if !o.hooksPhase() || o.Cwd == "outside" {
 		return ""
@@ -738,7 +773,7 @@ func activeDir(pre *state, o opDef) string {
 	if v := pre.Cfg[wts]["core.hookspath"]; len(v) > 0 {
 		hp = v[len(v)-1]
 	}
-	dir := o.Cwd + "/" + hp
+	dir := filepath.Clean(o.Cwd + "/" + hp)
 	switch {
 	case hp == "":
 		dir = "repo/.git/hooks"
@@ -763,9 +798,9 @@ func (e *envT) runOp(w *gitx.World, o opDef) gitx.Res {
 		stdin = []byte(o.Stdin)
 	}
 	if e.unpriv {
-		return runAs(w, filepath.Join(w.Root, o.Cwd), stdin, filepath.Join(w.BinDir, "git-lfs"), args...)
+		return runAs(w, filepath.Join(w.Root, o.Cwd, o.Sub), stdin, filepath.Join(w.BinDir, "git-lfs"), args...)
 	}
-	return w.RunIn(filepath.Join(w.Root, o.Cwd), stdin, nil, filepath.Join(w.BinDir, "git-lfs"), args...)
+	return w.RunIn(filepath.Join(w.Root, o.Cwd, o.Sub), stdin, nil, filepath.Join(w.BinDir, "git-lfs"), args...)
 }
 
 // ---------------------------------------------------------------------------------------------------------
@@ -864,6 +899,25 @@ func evaluate(pre, post *state, o opDef, res gitx.Res, so *stepOut, where string
 		}
 		so.viol(fp, fmt.Sprintf("%s: `git lfs %s` changed %s, which is not LFS-generated content\n before: %s\n after:  %s", where, o.Name, p, he.String(), after),
 			detail(map[string]interface{}{"path": p}))
+	}
+
+	// S1: the hooks git-lfs manages are GIT's hooks: no entry named like one of the four hooks appears anywhere outside
+	// the hooks directories (such a file is never run by Git and is out of reach of an uninstall that looks at Git's
+	// hooks directory: a leftover in the user's work tree).
+	so.evals++
+	so.counters["S1.transitions_checked_for_hook_files_outside_the_hooks_directory"]++
+	for _, p := range sortedHookKeys(post.Hooks) {
+		q := post.Hooks[p]
+		elsewhere := strings.HasPrefix(q.Class, strayClass)
+		if d, rest := splitHookPath(p); !elsewhere && active != "" && active != "<outside>" && d != "" && d != scriptsDir && d != active && isHookName(rest) {
+			elsewhere = true // one of the other hooks directories of the world: not the one Git uses for this work tree
+		}
+		if elsewhere {
+			if _, was := pre.Hooks[p]; !was {
+				so.viol("C20:hook-written-outside-git-hooks-directory:"+opKind(o), fmt.Sprintf("%s: `git lfs %s` created %s (%s), which is not in Git's hooks directory (%s)", where, o.Name, p, q.String(), active),
+					detail(map[string]interface{}{"path": p, "git_hooks_directory": active}))
+			}
+		}
 	}
 
 	// H2: install/update without --force that meets a user hook reports the conflict.
@@ -1223,50 +1277,65 @@ func (e *envT) step(w *gitx.World, pre *state, preSnap snap, o opDef, where stri
 			return so
 		}
 	}
-	un := matchingUninstall(o)
-	res3 := e.runOp(w, un)
-	if res3.TimedOut {
-		so.inconcl = "timeout: probe " + un.Name
-		return so
-	}
-	so.trans++
-	post3 := e.digest(capture(w.Root))
-	xc(post3)
-	evaluate(post2, post3, un, res3, &so, where+" step `"+o.Name+"`, then again, then `"+un.Name+"`")
-	so.evals++
-	so.counters["R1.roundtrip_checked"]++
-	_, cd := diffStates(pre, post3)
-	if len(cd) > 0 {
-		so.viol("C20:roundtrip-not-restored:config", fmt.Sprintf("%s: `git lfs %s` followed by `git lfs %s` did not restore the configuration: %v differ", where, o.Name, un.Name, cd),
-			map[string]interface{}{"before": pre.describe(), "after": post3.describe()})
-	}
-	for _, p := range sortedHookKeys(pre.Hooks) {
-		he := pre.Hooks[p]
-		if !he.Protected {
-			continue
+	// the matching uninstall, run from the directory the install was run from; in scenario cwd also from every other
+	// invoking directory of the same work tree (each time on the state install;install produced)
+	uns := []opDef{matchingUninstall(o)}
+	for _, sub := range e.altSubs {
+		if sub != o.Sub {
+			uns = append(uns, subOp(mkOp("uninstall", o.Scope, o.Cwd, map[bool]string{true: "r", false: ""}[o.SkipRepo]), sub))
 		}
-		so.counters["R1.user_entries_checked"]++
-		if q, ok := post3.Hooks[p]; !ok || !he.same(q) {
-			fp := "C20:roundtrip-not-restored:hook-" + he.Class
-			if he.Beyond {
-				fp = "C20:hook-beyond-1024-treated-as-lfs"
-			}
-			if mid, okm := post2.Hooks[p]; he.Class == "symlink-dangling" && okm && he.same(mid) && strings.HasPrefix(mid.Class, "symlink-lfs-") && !ok {
-				// install left the user's link alone but wrote its hook THROUGH it (creating the missing target);
-				// uninstall then judged the link by that content and removed it (finding-3.md)
-				fp = "C20:roundtrip-not-restored:dangling-symlink-written-through-then-removed"
-			}
-			so.viol(fp, fmt.Sprintf("%s: `git lfs %s` followed by `git lfs %s` did not restore user hook %s (%s)", where, o.Name, un.Name, p, he.String()),
+	}
+	for ui, un := range uns {
+		if ui > 0 {
+			e.restoreWorld(snap2, w.Root)
+		}
+		res3 := e.runOp(w, un)
+		if res3.TimedOut {
+			so.inconcl = "timeout: probe " + un.Name
+			return so
+		}
+		so.trans++
+		post3 := e.digest(capture(w.Root))
+		xc(post3)
+		evaluate(post2, post3, un, res3, &so, where+" step `"+o.Name+"`, then again, then `"+un.Name+"`")
+		so.evals++
+		so.counters["R1.roundtrip_checked"]++
+		if un.Sub != o.Sub {
+			so.counters["R1.roundtrip_checked_uninstall_invoked_from_another_directory"]++
+		}
+		_, cd := diffStates(pre, post3)
+		if len(cd) > 0 {
+			so.viol("C20:roundtrip-not-restored:config", fmt.Sprintf("%s: `git lfs %s` followed by `git lfs %s` did not restore the configuration: %v differ", where, o.Name, un.Name, cd),
 				map[string]interface{}{"before": pre.describe(), "after": post3.describe()})
 		}
-	}
-	for _, p := range sortedHookKeys(post3.Hooks) {
-		if strings.HasPrefix(p, scriptsDir+"/") {
-			continue // not a hooks directory (a script created through a pre-existing dangling symlink is not a hook)
+		for _, p := range sortedHookKeys(pre.Hooks) {
+			he := pre.Hooks[p]
+			if !he.Protected {
+				continue
+			}
+			so.counters["R1.user_entries_checked"]++
+			if q, ok := post3.Hooks[p]; !ok || !he.same(q) {
+				fp := "C20:roundtrip-not-restored:hook-" + he.Class
+				if he.Beyond {
+					fp = "C20:hook-beyond-1024-treated-as-lfs"
+				}
+				if mid, okm := post2.Hooks[p]; he.Class == "symlink-dangling" && okm && he.same(mid) && strings.HasPrefix(mid.Class, "symlink-lfs-") && !ok {
+					// install left the user's link alone but wrote its hook THROUGH it (creating the missing target);
+					// uninstall then judged the link by that content and removed it (finding-3.md)
+					fp = "C20:roundtrip-not-restored:dangling-symlink-written-through-then-removed"
+				}
+				so.viol(fp, fmt.Sprintf("%s: `git lfs %s` followed by `git lfs %s` did not restore user hook %s (%s)", where, o.Name, un.Name, p, he.String()),
+					map[string]interface{}{"before": pre.describe(), "after": post3.describe()})
+			}
 		}
-		if _, ok := pre.Hooks[p]; !ok {
-			so.viol("C20:roundtrip-not-restored:hook-left-behind", fmt.Sprintf("%s: `git lfs %s` followed by `git lfs %s` left %s behind (%s), which did not exist before", where, o.Name, un.Name, p, post3.Hooks[p].String()),
-				map[string]interface{}{"before": pre.describe(), "after": post3.describe()})
+		for _, p := range sortedHookKeys(post3.Hooks) {
+			if strings.HasPrefix(p, scriptsDir+"/") {
+				continue // not a hooks directory (a script created through a pre-existing dangling symlink is not a hook)
+			}
+			if _, ok := pre.Hooks[p]; !ok {
+				so.viol("C20:roundtrip-not-restored:hook-left-behind", fmt.Sprintf("%s: `git lfs %s` followed by `git lfs %s` left %s behind (%s), which did not exist before", where, o.Name, un.Name, p, post3.Hooks[p].String()),
+					map[string]interface{}{"before": pre.describe(), "after": post3.describe()})
+			}
 		}
 	}
 	return so
@@ -1434,13 +1503,17 @@ func lfsSection(vals map[string][]string) string {
 	return b.String()
 }
 
-// hooksPath variants: "" (unset), "rel", "abs"
+// hooksPath variants: "" (unset), "rel", "abs" (absolute, outside the repository), "relup", "absin" (scenario cwd)
 func hooksDirFor(hp string) (dir, value string) {
 	switch hp {
 	case "rel":
 		return "repo/relhooks", "relhooks"
 	case "abs":
 		return "abshooks", rootPH + "/abshooks"
+	case "relup": // relative, leaving the work tree through ..
+		return "abshooks", "../abshooks"
+	case "absin": // absolute, inside the work tree
+		return "repo/relhooks", rootPH + "/repo/relhooks"
 	}
 	return "repo/.git/hooks", ""
 }
@@ -1528,8 +1601,9 @@ func (e *envT) mkInitDV(desc, hp, dv string, hooks map[string]hookClass, cfg map
 // Parts (scenarios)
 
 type partDef struct {
-	XCheck   string // scenarios cfgwhere-*: scope whose view (includes followed) is cross-checked against the real git after every transition
-	Unpriv   bool   // run git-lfs as unprivUID (scenario perms)
+	AltSubs  []string // scenario cwd: invoking directories (relative to the top of the work tree) the roundtrip probe crosses
+	XCheck   string   // scenarios cfgwhere-*: scope whose view (includes followed) is cross-checked against the real git after every transition
+	Unpriv   bool     // run git-lfs as unprivUID (scenario perms)
 	Name     string
 	Inits    []initState
 	Ops      []opDef
@@ -2070,7 +2144,8 @@ func (e *envT) bfs(p *partDef, deadline time.Time) (*vx.Stats, bfsInfo) {
 	t0 := time.Now()
 	e.unpriv = p.Unpriv
 	e.xcheck = p.XCheck
-	defer func() { e.unpriv, e.xcheck = false, "" }()
+	e.altSubs = p.AltSubs
+	defer func() { e.unpriv, e.xcheck, e.altSubs = false, "", nil }()
 	st := vx.NewStats()
 	info := bfsInfo{Scenario: p.Name, Initial: len(p.Inits), Ops: len(p.Ops), MaxDepth: p.MaxDepth}
 	seen := map[uint64]bool{}
@@ -2205,6 +2280,7 @@ func (e *envT) replayRun(p *partDef) vx.RunFunc {
 	return func(x *vx.X) vx.Result {
 		e.unpriv = p.Unpriv
 		e.xcheck = p.XCheck
+		e.altSubs = p.AltSubs
 		i := x.In(len(p.Inits))
 		world := <-e.pool
 		defer func() { e.pool <- world }()
@@ -2362,6 +2438,7 @@ func TestVerifC20(t *testing.T) {
 	c.Assumptions = []string{
 		"Ownership model (independent of lfs/hook.go's matcher): a hook file is LFS-generated iff the WHOLE file, with leading blanks/tabs of each line removed and surrounding whitespace trimmed, equals the current or a historical template of that hook (templates copied from the 3.6.0 sources and cross-checked at start against what a fresh install writes). Everything else in a hooks directory (other content, other file names, symlinks to user scripts, directories) is user content.",
 		"Symbolic links: the content of a hook is what reading the hook path yields. A link (chain) that ends at a file with LFS-generated or blank content is treated like such a file (git-lfs may rewrite that file through the link; uninstall may remove the link). A link that ends at a user script, at a directory, at nothing (dangling - whether or not the missing target could be created) or in a loop yields no LFS-generated content: without --force the link itself (its target string), every intermediate link of the chain and whatever they point to must be unchanged; with --force the hook path and the file the chain ends at may change. A hooks directory that is itself a symbolic link must never be replaced (--force is documented to overwrite hooks, not the hooks directory). A file that git-lfs creates at the missing target of a dangling link lies outside the hooks directories and is not itself demanded to disappear; the link, however, is one of 'the previous hooks' that uninstall-after-install must restore (finding-3.md).",
+		"Invoking directory (scenario cwd): the hooks install / update / uninstall manage are the hooks of the repository the command is started in, i.e. the entries of the directory GIT uses: core.hooksPath, a relative value being relative to the top of the work tree wherever inside the work tree Git (or git-lfs) is started (gitconfig(5): 'a relative path is taken as relative to the directory where the hooks are run'; git 2.39 runs hooks at the top of the work tree; checked against `git rev-parse --git-path hooks` for every initial state and invoking directory). H1/H2/R1 are applied to that directory whatever the invoking directory is. S1: an entry named like one of the four hooks that git-lfs creates anywhere else in the world is never run by Git and is out of reach of uninstall: flagged on the transition that creates it (C20:hook-written-outside-git-hooks-directory:*) and by the roundtrip probe (hook-left-behind). 'uninstall after install restores' is demanded for an uninstall started in any directory of the same work tree, not only the one the install was started in. A pre-existing hook-named file outside the hooks directories is user content (never to be changed, not even with --force, which targets the hooks of the hooks directory). Empty directories left behind are not flagged (same as for a hooks directory that install had to create).",
 		"The conflict report (H2) is demanded where reading the hook path yields a user script (regular file, link or link chain); for directories, dangling links and loops only non-destruction is demanded (git-lfs reports an I/O error there or installs through the link).",
 		"Not enumerated: FIFOs / sockets / devices as hook paths (git-lfs open()s the hook path; a FIFO without writer blocks forever, which would only produce tool timeouts). Permission states are void for root: they are explored by running git-lfs as uid 65534 (scenario perms); when the harness cannot drop privileges the scenario is skipped and that is recorded in bounds.scenario_perms_skipped.",
 		"A hook file consisting only of whitespace carries no user content; git-lfs treats it as replaceable by design, and the check does not flag that. A template that only matches when CRs are ignored is 'ambiguous': either treatment is accepted.",
@@ -2415,6 +2492,7 @@ func TestVerifC20(t *testing.T) {
 		}
 		builders = append(builders, builder{"cfgwhere-" + sc, func() partDef { return e.cfgWherePart(sc, level) }})
 	}
+	builders = append(builders, builder{"cwd", e.cwdPart})
 	builders = append(builders, builder{"mixed", func() partDef { return e.mixedPart(false) }})
 	if e.thorough {
 		builders = append(builders, builder{"mixed-deep", func() partDef { return e.mixedPart(true) }})
@@ -2427,6 +2505,14 @@ func TestVerifC20(t *testing.T) {
 		}
 	}
 	for i := range parts {
+		if parts[i].Name == "cwd" {
+			msg, n := e.verifyCwdInits(&parts[i])
+			if msg != "" {
+				fmt.Printf("TOOL-ERROR property=C20 the harness's model of Git's hooks directory disagrees with git: %s\n", msg)
+				os.Exit(2)
+			}
+			c.Bounds["scenario_cwd_hooks_directory_model_agrees_with_git_rev_parse"] = fmt.Sprintf("%d/%d (initial state, invoking directory) pairs", n, n)
+		}
 		if parts[i].XCheck != "" {
 			if msg := e.verifyWhereInits(&parts[i]); msg != "" {
 				fmt.Printf("TOOL-ERROR property=C20 the harness's model of include resolution disagrees with git: %s\n", msg)
@@ -2435,12 +2521,13 @@ func TestVerifC20(t *testing.T) {
 		}
 	}
 
-	c.Rule = "multi-source BFS with canonical-state dedup (key = type/mode/bytes of every entry of every hooks directory and of symlinked user scripts + all config values of the 6 scope files) over the real git-lfs binary. " +
+	c.Rule = "multi-source BFS with canonical-state dedup (key = type/mode/bytes of every entry of every hooks directory and of symlinked user scripts + every entry anywhere else in the world that is named like one of the four hooks + all config values of the 6 scope files; the invoking directory belongs to the operation, not to the state) over the real git-lfs binary. " +
 		"Scenario 'hooks': every pre-existing hook class (see bounds) for each hook alone and for all four together x core.hooksPath {unset, relative, absolute} under {install, install --force, update, uninstall, track (+ update --force in the thorough tier)}; " +
 		"scenarios 'cfg-<scope>' for the 6 scopes {global, --local, --worktree in main and in a linked worktree, --file, --system via GIT_CONFIG_SYSTEM}: combinations of filter.lfs.{clean,smudge,process}∈{unset,current,historical,custom} x required∈{unset,true,false} plus multi-valued keys under {install, install --force, install --skip-smudge, uninstall} (--skip-repo) to closure; " +
 		"scenario 'hooktypes': the pre-existing hook varied by FILE TYPE and LINK STATE (bounds: hooktypes_entry_classes - symlink with relative/absolute target to a user script, to current/historical LFS content, to an empty file, to a directory; dangling symlink with relative/absolute target whose directory exists or not; chain of two links ending at a user script / LFS content / nothing; self-loop; empty directory; mode 000) for the first and a later hook slot and for all four x core.hooksPath {unset, relative, absolute outside the repository}, and the hooks directory itself varied {symlink to another directory with absolute/relative target, missing, dangling symlink} x {no hooks, current, user script, dangling symlink, symlink to user script}, under the hooks alphabet, to closure; " +
 		"scenario 'perms' (only when the harness is root and can drop privileges): git-lfs runs as uid 65534 on worlds owned by uid 65534 with a read-only hooks directory, unreadable / read-only / write-only hook files (user and LFS content), a symlink to an unreadable script and a symlink into an unsearchable directory, to closure; " +
 		"scenarios 'cfgwhere-<scope>' for the same 6 scopes: the pre-existing filter.lfs.* values varied by WHERE they live relative to the target scope's file (bounds: cfgwhere_layouts) - in a file pulled in by [include] path= (relative / absolute), by [includeIf \"gitdir:...\"] that matches / does not match, by an include nested in an include, by two includes, behind an include of a missing file; in an included file AND directly in both orders (include before the direct section: the direct values are the ones git uses; after it: the included ones are); in another scope's included file - x value vectors over {unset, current, historical, custom} per key, under {install, install --force, install --skip-smudge, uninstall} (--skip-repo) with the scope's flag, to closure; the harness's model of include resolution is compared with `git config --includes` for every initial state and after every transition; " +
+		"scenario 'cwd': the INVOKING DIRECTORY: every operation of the hooks alphabet {install, install --force, update, update --force, uninstall, track} offered from the top of the work tree, from src/ and from src/lib/ (thorough: also from the top and src/lib/ of the linked worktree, and install/uninstall --local from the sub-directories) x core.hooksPath {unset, relative, relative through ../, absolute inside the work tree, absolute outside the repository} x pre-existing hooks {absent, current LFS, user script in pre-push, user script in all four (thorough: + user script beside current hooks, historical LFS, symlink to user script, LFS hook followed by user lines)} x {nothing else, a directory named like the relative core.hooksPath below the invoking sub-directory holding a user's own pre-push}, to closure; the hooks directory that counts is Git's (a relative core.hooksPath is relative to the top of the work tree wherever the command is started; the harness's model is compared with `git rev-parse --git-path hooks` run in every invoking directory of every initial state); the roundtrip probe runs the uninstall from EVERY invoking directory; " +
 		"scenario 'mixed': hooks x multi-scope configurations under the cross-scope alphabet. Every install transition additionally runs the probes install;install and install;install;uninstall. " +
 		"A case (state, operation) is non-trivial when the state holds at least one user-owned hook entry or custom filter value, or the operation changed the state; distinct = distinct (canonical state key, operation)."
 	c.Bounds["tier"] = c.Tier
@@ -2459,6 +2546,8 @@ func TestVerifC20(t *testing.T) {
 	}
 	c.Bounds["hooktypes_entry_classes"] = typeNames
 	c.Bounds["hooktypes_hooks_directory_variants"] = dirVariants
+	c.Bounds["cwd_invoking_directories"] = []string{"<top of the work tree>", "src", "src/lib"}
+	c.Bounds["cwd_core_hookspath_values"] = []string{"(unset)", "relhooks", "../abshooks", "<root>/repo/relhooks", "<root>/abshooks"}
 	c.Bounds["cfgwhere_layouts"] = map[string]interface{}{
 		"single_location": []string{"[include] relative path", "[include] absolute path", "[includeIf gitdir: matching] absolute path", "[includeIf gitdir: NOT matching] relative path",
 			"[include] -> file that [include]s (quick: global scope only)", "thorough: [includeIf gitdir: matching] relative path, [include] of a missing file, two [include]s in both orders"},
